@@ -624,6 +624,19 @@ def norm_binop(op, a, b):
     """canonical comparison direction: only Lt/Le/Eq/Ne survive (Gt(a,b)=Lt(b,a), Ge(a,b)=Le(b,a))"""
     if op in ("Gt", "Ge"):
         op, a, b = FLIP[op], b, a
+    # algebraic identities: x + 0, 0 + x, x - 0, x * 1
+    if op in ("Add", "AddWithOverflow", "AddUnchecked") and op == "Add":
+        if b[0] == "const" and b[1] == 0:
+            return a
+        if a[0] == "const" and a[1] == 0:
+            return b
+    if op == "Sub" and b[0] == "const" and b[1] == 0:
+        return a
+    if op == "Mul":
+        if b[0] == "const" and b[1] == 1:
+            return a
+        if a[0] == "const" and a[1] == 1:
+            return b
     if op in COMMUTATIVE and repr(a) > repr(b):
         a, b = b, a
     return ("binop", op, a, b)
@@ -1039,7 +1052,16 @@ def path_atoms(fn, path):
         if br:
             expr, tt, ft = br
             if tt != ft:
-                atoms.append(("bool", expr, nxt == tt, b))
+                truth = nxt == tt
+                ev = eq_variant(expr)
+                if ev is not None:
+                    scrut, vname, positive = ev
+                    if truth == positive:
+                        atoms.append(("enum", scrut, (vname,), b))
+                    else:
+                        atoms.append(("enum", scrut, ("!" + vname,), b))
+                else:
+                    atoms.append(("bool", expr, truth, b))
             continue
         ve = variant_edges(fn, b)
         if ve:
@@ -1327,3 +1349,16 @@ def any_all(F, alts, name, pred, depth, seen):
     if not alts:
         return False
     return all(deep_trace(F, g, project(peel_identity(x), name), pred, depth + 1, seen) for g, x in alts)
+
+
+def eq_variant(expr):
+    """`x == Enum::V` / `x != Enum::V` (PartialEq on a field-less variant) -> (x, V, positive)"""
+    e, neg = expr, False
+    if e[0] == "unop" and e[1] == "Not":
+        e, neg = e[2], True
+    if e[0] == "call" and (e[1].endswith("PartialEq>::eq") or e[1].endswith("PartialEq::eq") or e[1].endswith("PartialEq>::ne") or e[1].endswith("PartialEq::ne")) and len(e[2]) == 2:
+        is_ne = e[1].endswith("ne")
+        for x, v in ((e[2][0], e[2][1]), (e[2][1], e[2][0])):
+            if v[0] == "agg" and v[2] and not v[3] and x[0] != "agg":
+                return x, v[2], (not is_ne) != neg
+    return None
